@@ -138,6 +138,9 @@ type Kernel struct {
 	preemptAt  map[int]bool
 	lockPoints int
 
+	FS      *FS
+	sandbox string
+
 	// LockOrder accumulates held->requested edges between mutex sites (C20).
 	LockOrder map[string]map[string]bool
 	heldBy    map[uint64][]*lockReq
@@ -693,6 +696,7 @@ func RunBubbleTrace(seed uint64, p SchedParams, trace bool, enter func(func()), 
 			k.startTime = time.Now()
 			k.installSeams()
 			defer k.removeSeams()
+			defer k.cleanupSandbox()
 			defer finish()
 			defer func() {
 				if r := recover(); r != nil {
